@@ -307,6 +307,11 @@ CallResult RunEntry(int entry, const std::vector<uint8_t> &bytes,
     (void)g_mesh.release();
     (void)g_pc.release();
     AllocEnd(true);
+    // Strings of |r| that were assigned inside the abandoned call lived in the
+    // epoch that has just been freed wholesale: forget them without freeing.
+    new (&r.status_msg) std::string();
+    new (&r.exception_what) std::string();
+    r.status_code = 0;
   }
   r.n_alloc_pcs = 0;
   for (int i = 0; i < r.alloc.viol_nbt && i < 12; ++i)
@@ -618,7 +623,7 @@ Tier TierConfig(const std::string &tier) {
     t.step_mult = 1000;
     t.step_cap = 200000000ull;
   } else {
-    t.enum_max_len = 700;
+    t.enum_max_len = 560;
     t.sample_enum = 1200;
     t.random_small = 700;
     t.random_large = 300;
